@@ -95,6 +95,9 @@ class C01(Property):
                 else:
                     d["jpeg"] = rng.choice([-1, -1, 30, 95])
                 kind = f"{style}-{d['method']}" + (f"-{d['term']}" if style == "iterm2" else "") + ("-native" if d.get("animated") else "") + ("-exact" if d.get("exact") else "") + ("-viasupported" if d.get("via_supported") else "")
+            # an application-defined subclass of the style class (settings and terminal identity are looked up
+            # through the instance's own class)
+            d["subclass"] = rng.random() < 0.3
             # where the image comes from and which public entry point produces the render output
             if not d.get("dynamic") and not d.get("exact") and rng.random() < 0.55:
                 d["source"] = rng.choice(["pil-file", "file", "pil-nofile"])
@@ -107,7 +110,7 @@ class C01(Property):
             if not d.get("dynamic") and rng.random() < 0.5:
                 d["entry"] = rng.choice(["str", "format", "format", "iter"] if d.get("animated") else ["str", "format", "format"])
             kind += ("-" + d["source"] if d.get("source") else "") + ("-" + d["entry"] if d.get("entry") else "") \
-                + ("-frames" if d.get("animated") and "-native" not in kind else "")
+                + ("-frames" if d.get("animated") and "-native" not in kind else "") + ("-subclass" if d.get("subclass") else "")
             yield Case("", d, kind, True)
 
     # -- sources and entry points -----------------------------------------------------
@@ -195,7 +198,7 @@ class C01(Property):
         env.set_env(bg=d["bg"], term_size=(200, 100))
         if style == "block":
             env.set_env(is_on_kitty=d["kitty_term"])
-            im = self._instance(BlockImage, img, d)
+            im = self._instance(type("AppBlockImage", (BlockImage,), {}) if d.get("subclass") else BlockImage, img, d)
             if d.get("dynamic"):
                 import term_image as _ti
                 env.set_env(term_size=tuple(d["tsize"]))
@@ -233,6 +236,8 @@ class C01(Property):
             return out, line
         env.set_env(cell_size=d["cell"], name=d["term"])
         cls = KittyImage if style == "kitty" else ITerm2Image
+        if d.get("subclass"):
+            cls = type("App" + cls.__name__, (cls,), {})
         restore = None
         if d.get("via_supported"):
             env.state["name_version"] = (d["term"], d["version"])
@@ -324,6 +329,13 @@ class C01(Property):
                     return Failure(f"undisplayable/{where}", f"a kitty command says o=z but its payload does not inflate ({e}): "
                                    "the terminal rejects the image and the rectangle is not covered")
         kind = d.get("_eff_term") or d.get("term") or ("kitty" if d.get("kitty_term") else "other")
+        if kind == "konsole":
+            # the library's quirk table: Konsole places the cursor after an inline image differently from iTerm2 unless
+            # the image carries doNotMoveCursor=1 (the terminal model follows the iTerm2 rule for the other kinds only)
+            for t in toks:
+                if t.wire.startswith("I") and t.info["keys"].get("doNotMoveCursor") != "1":
+                    return Failure(f"konsole-cursor/{where}", "an inline image is sent to Konsole without doNotMoveCursor=1: the "
+                                   "cursor does not end where the render's cursor choreography assumes (rectangle/cursor clause)")
         reqs, places = [], []
         rng = random.Random(hash(case.line) & 0xFFFF)
         for _ in range(3):
